@@ -100,7 +100,14 @@ func (x *Exec) call(e *ast.CallExpr, st *State, nres int) Value {
 	// interface method: devirtualise
 	if sig.Recv() != nil {
 		if _, isIface := sig.Recv().Type().Underlying().(*types.Interface); isIface {
-			if impl := x.devirtualize(fn, sig.Recv().Type()); impl != nil {
+			if ct := x.declaredImpl(recvExpr); ct != nil {
+				if obj, _, _ := types.LookupFieldOrMethod(ct, true, x.pkg.Types, fn.Name()); obj != nil {
+					if f, ok := obj.(*types.Func); ok {
+						fn = f
+						sig = fn.Type().(*types.Signature)
+					}
+				}
+			} else if impl := x.devirtualize(fn, sig.Recv().Type()); impl != nil {
 				fn = impl
 				sig = fn.Type().(*types.Signature)
 			}
@@ -130,6 +137,54 @@ func (x *Exec) devirtualize(m *types.Func, iface types.Type) *types.Func {
 				found = f
 				n++
 			}
+		}
+	}
+	if n == 1 {
+		return found
+	}
+	return nil
+}
+
+// declaredImpl: the receiver expression is a field for which an `impl` directive names the concrete type.
+func (x *Exec) declaredImpl(recvExpr ast.Expr) types.Type {
+	se, ok := unparen(recvExpr).(*ast.SelectorExpr)
+	if !ok || recvExpr == nil {
+		return nil
+	}
+	sel := x.info.Selections[se]
+	if sel == nil || sel.Kind() != types.FieldVal {
+		return nil
+	}
+	return x.implOfField(structName(sel.Recv()), se.Sel.Name)
+}
+
+func (x *Exec) implOfField(owner, field string) types.Type {
+	for _, c := range x.prog.Contracts.Impls {
+		f := strings.Fields(c.Src)
+		if f[0] == owner+"."+field {
+			return x.resolveGoType(f[1])
+		}
+	}
+	return nil
+}
+
+// uniqueImpl returns *T when T is the only named type of the package whose pointer implements it.
+func (x *Exec) uniqueImpl(it *types.Interface) types.Type {
+	var found types.Type
+	n := 0
+	scope := x.pkg.Types.Scope()
+	for _, name := range scope.Names() {
+		tn, ok := scope.Lookup(name).(*types.TypeName)
+		if !ok {
+			continue
+		}
+		if _, isIface := tn.Type().Underlying().(*types.Interface); isIface {
+			continue
+		}
+		pt := types.NewPointer(tn.Type())
+		if types.Implements(pt, it) {
+			found = pt
+			n++
 		}
 	}
 	if n == 1 {
